@@ -91,7 +91,7 @@ TwinClauses(e) ==
 
 AllClauses == {"C01_word", "C01_text", "C02_accept", "C02_final", "C06_add", "C06_remove", "C06_replace", "C06_out",
                "C07_ext", "C10_frame", "C10_future", "C11_obs", "C11_state", "C12_reject", "C12_unique", "C15_same",
-               "C15_noop", "C15_valframe", "C15_readchild", "C16_pure", "C16_future", "C18_free", "C18_same", "C19_class", "C19_quiet", "cascade"}
+               "C15_noop", "C15_valframe", "C15_readchild", "C16_pure", "C16_future", "C18_free", "C18_same", "C18_order", "C19_class", "C19_quiet", "cascade"}
 
 VARIABLES i, cnt     \* cnt[n] = number of steps so far that exercised clause n (non-vacuity accounting)
 
